@@ -215,7 +215,12 @@ def run_unit(tier="quick"):
                     user = [c for c in calls if (isinstance(c.func, ast.Name) and c.func.id in USER_CALLABLE_NAMES)
                             or (isinstance(c.func, ast.Attribute) and isinstance(c.func.value, ast.Name)
                                 and c.func.value.id in ("sf", "self") and c.func.attr in
-                                ("fun", "grad", "fun_and_grad", "_update_fun", "_update_grad"))]
+                                ("fun", "grad", "fun_and_grad", "_update_fun", "_update_grad"))
+                            # library routines that call back into user code
+                            or (isinstance(c.func, ast.Name) and c.func.id in ("approx_derivative", "line_search",
+                                                                               "minimize_lbfgsb"))
+                            or (isinstance(c.func, ast.Attribute) and c.func.attr in ("_iterate", "dcsrch"))
+                            or any(isinstance(a_, ast.Name) and a_.id in USER_CALLABLE_NAMES for a_ in c.args)]
                     broad = [h for h in n.handlers if h.type is None or ast.unparse(h.type) in
                              ("Exception", "BaseException")]
                     res.append(R("flow::user_exc_handlers::no_user_call_inside_try", not user and not broad, P20,
